@@ -862,6 +862,9 @@ func genSchedule(rng *rand.Rand, family string, depth int) *Schedule {
 			}
 		} else {
 			if rng.Intn(3) == 0 {
+				// one of the reads made for a key rotation while a data message is being received
+				add(Step{A: "FailRand", P: ps[rng.Intn(2)], F: "ratchet", I: rng.Intn(7), Q: rng.Intn(2) == 0})
+			} else if rng.Intn(3) == 0 {
 				// one of the reads made while building SMP messages (their number is not known in terms of
 				// the running count: the signature scheme draws a varying number of times before)
 				add(Step{A: "FailRand", P: ps[rng.Intn(2)], F: "smp", I: rng.Intn(14), Q: rng.Intn(2) == 0})
@@ -877,9 +880,11 @@ func genSchedule(rng *rand.Rand, family string, depth int) *Schedule {
 		for k := 0; k < 3; k++ {
 			text++
 			add(Step{A: "Send", P: "A", T: text})
+			add(Step{A: "ForgeDisclosed", P: "A"})
 			add(Step{A: "Deliver", P: "B"})
 			text++
 			add(Step{A: "Send", P: "B", T: text})
+			add(Step{A: "ForgeDisclosed", P: "A"})
 			add(Step{A: "Deliver", P: "A"})
 		}
 		// whoever reads the wire forges with every MAC key published so far (they are published because the
